@@ -446,8 +446,15 @@ def seed():
         return 0
 
 
+def evidence_path(pid):
+    # VERIF_EVIDENCE_DIR: used only by tools/try_seed.sh so that a run against a seeded change does not overwrite the
+    # evidence of the unchanged tree
+    evdir = os.environ.get("VERIF_EVIDENCE_DIR", os.path.join(VERIF, "evidence"))
+    os.makedirs(evdir, exist_ok=True)
+    return os.path.join(evdir, pid + ".json")
+
+
 def write_evidence(pid, tier, level, coverage, assumptions, wall_s, violations=0):
-    os.makedirs(os.path.join(VERIF, "evidence"), exist_ok=True)
     ev = {
         "property_id": pid,
         "tier": tier,
@@ -458,7 +465,7 @@ def write_evidence(pid, tier, level, coverage, assumptions, wall_s, violations=0
         "wall_s": round(wall_s, 2),
         "violations": violations,
     }
-    p = os.path.join(VERIF, "evidence", pid + ".json")
+    p = evidence_path(pid)
     with open(p, "w") as f:
         json.dump(ev, f, indent=1, sort_keys=False)
         f.write("\n")
